@@ -108,6 +108,7 @@ type Eng struct {
 	missingLoops []int
 	localChans   []localChan
 	siteHit      map[*SiteSpec]bool
+	binderDepth  int
 }
 
 type localChan struct {
